@@ -20,6 +20,10 @@ pub struct Case {
     /// pass literal arguments as literal expressions (`f("x")`) instead of declared variables
     #[serde(default)]
     pub literal_expr: bool,
+    /// pair templates only: the second argument comes from a trailing multi-return call `f(arg0, two())` where
+    /// `two()` is declared `---@return <Y>, <X>` (its first value feeds the second parameter)
+    #[serde(default)]
+    pub spread: bool,
 }
 
 pub struct C18;
@@ -171,6 +175,12 @@ pub fn build(c: &Case, widen: &dyn Fn(&Ty) -> Ty) -> Option<Built> {
             _ => format!("arg{i}"),
         })
         .collect();
+    if c.spread && matches!(name, "pair-first" | "pair-second") && arg_texts.len() == 2 {
+        // parenthesised: a bare `fun(): A, B` would swallow the second return type into its own return list
+        p.push_str(&format!("---@return ({}), ({})\nlocal function two() end\n", arg_texts[1], arg_texts[0]));
+        p.push_str(&format!("local r = f({}, two())\n", call_args[0]));
+        return Some(Built { program: p, expected, args: arg_texts });
+    }
     p.push_str(&format!("local r = f({})\n", call_args.join(", ")));
     Some(Built { program: p, expected, args: arg_texts })
 }
@@ -285,8 +295,8 @@ impl Property for C18 {
         let p = Profile { unknown: false, max_depth: 3, ..Profile::full() };
         // arguments: mostly any generated type, with a share of bare literals (they exercise widening)
         let arg = prop_oneof![5 => dt::ty(p), 1 => dt::leaf(p)];
-        (dt::world(), 0u8..TEMPLATES.len() as u8, arg.clone(), arg, any::<bool>(), 0u8..3, any::<bool>())
-            .prop_map(|(world, tpl, x, y, opt_arg, style, literal_expr)| Case { world, tpl, x, y, opt_arg, style, literal_expr })
+        (dt::world(), 0u8..TEMPLATES.len() as u8, arg.clone(), arg, any::<bool>(), 0u8..3, any::<bool>(), proptest::bool::weighted(0.3))
+            .prop_map(|(world, tpl, x, y, opt_arg, style, literal_expr, spread)| Case { world, tpl, x, y, opt_arg, style, literal_expr, spread })
             .boxed()
     }
     fn local(&self) {}
